@@ -81,6 +81,13 @@ CLAIMED = {
              "one-step inductive obligation; sharp never moves further beyond a reached limit. All 4-operation (5 thorough) programs over {pos, neg, both, "
              "read, update, update(clear=False), updatesome, clear} against a reference model of the accumulators.",
         ref="6/C10"),
+    "C11": dict(
+        text="2-safety by self-composition: a batch-B component and B batch-1 copies share symbolic parameters and are planted with the SAME arbitrary "
+             "symbolic per-sample state, then one step with arbitrary per-sample inputs (inductive step): outputs, state tensors, complete recorded "
+             "histories and delayed reads with a symbolic selector of the batched component sliced at b equal the single-sample copy's - 8 neuron classes "
+             "(adaptation frozen), 4 synapses (delay 0/2dt, in-place and not), 4 connection types with and without symbolic grid delays (T=2-3); Serial / "
+             "Biclique / RecurrentSerial layers unrolled T=2-3; trainers with a sum batch reduction: batched parts == sum of per-sample parts.",
+        ref="6/C11"),
     "C13": dict(
         text="Temporal setters (dt, duration, inclusive) on records whose contents are symbolic markers: size formula (native float arithmetic, incl. "
              "non-representable ratios), the newest min(old,new) observations stay at the same steps-before-present positions, older new slots are zero, "
